@@ -38,9 +38,13 @@ SETTINGS = ["p", "q"]
 # ---------------------------------------------------------------- table
 def gen_table_ops(rng, n):
     ops = []
+    recent = []
     for _ in range(n):
         r = rng.random()
-        k = rng.choice(KEYS)
+        # stay on the keys this sequence already touched most of the time: read / overwrite / delete / read
+        # again of ONE key (by item and by attribute) is what separates a real map from a cached view
+        k = rng.choice(recent[-3:]) if recent and rng.random() < 0.6 else rng.choice(KEYS)
+        recent.append(k)
         if r < 0.35:
             ops.append(["append", k, [rng.randint(-5, 5), rng.randint(0, 3)], rng.choice(["append", "setitem"])])
         elif r < 0.5:
@@ -111,6 +115,8 @@ def table_stream(ctx, count, maxlen):
         [["append", "aa", [1, 2], "append"], ["append", "bb", [3, 4], "setitem"], ["append", "aa", [5, 6], "setitem"],
          ["keys"], ["items"], ["del", "aa"], ["getpos", 0], ["getpos", -1], ["del", "aa"], ["len"], ["keys"]],
         [["del", "aa"], ["getpos", 0], ["getkey", "aa", "attr"], ["len"]],
+        [["append", "dd", [1, 1], "append"], ["getkey", "dd", "attr"], ["append", "dd", [2, 3], "setitem"],
+         ["getkey", "dd", "attr"], ["getkey", "dd", "item"], ["del", "dd"], ["getkey", "dd", "attr"], ["contains", "dd"]],
     ]
     for _ in range(count):
         seqs.append(gen_table_ops(ctx.rng, ctx.rng.randint(1, maxlen)))
